@@ -8,6 +8,8 @@ import (
 	"net/http"
 	"strconv"
 	"strings"
+	"sync"
+	"sync/atomic"
 	"time"
 
 	"github.com/google/uuid"
@@ -147,6 +149,13 @@ func (sc *script) fetchOutcome(prev int, dead bool) (string, int) {
 	return "ok", sc.src
 }
 
+// ownErr is a scripted failure; its text carries the updater's name in
+// brackets, so that the error Run reports for an updater can be recognised as
+// that updater's own.
+func ownErr(sc *script, step string) error {
+	return fmt.Errorf("scripted %s failure [%s]", step, nameStr(sc.name))
+}
+
 // closerGiven mirrors Script.closer of the model.
 func (sc *script) closerGiven(res string) bool {
 	switch sc.cmode {
@@ -210,7 +219,7 @@ func (b *base) Fetch(ctx context.Context, fp driver.Fingerprint) (io.ReadCloser,
 
 func (b *base) Parse(ctx context.Context, rc io.ReadCloser) ([]*claircore.Vulnerability, error) {
 	if !b.w.parse(ctx, b.sc, rc, 'p') {
-		return nil, errors.New("scripted parse failure")
+		return nil, ownErr(b.sc, "parse")
 	}
 	return mkVulns(b.sc.vulns), nil
 }
@@ -229,7 +238,7 @@ type deltaU struct{ base }
 
 func (d *deltaU) DeltaParse(ctx context.Context, rc io.ReadCloser) ([]*claircore.Vulnerability, []string, error) {
 	if !d.w.parse(ctx, d.sc, rc, 'd') {
-		return nil, nil, errors.New("scripted delta parse failure")
+		return nil, nil, ownErr(d.sc, "delta parse")
 	}
 	del := make([]string, len(d.sc.deleted))
 	for i, id := range d.sc.deleted {
@@ -246,7 +255,7 @@ func (e *enrichU) FetchEnrichment(ctx context.Context, fp driver.Fingerprint) (i
 
 func (e *enrichU) ParseEnrichment(ctx context.Context, rc io.ReadCloser) ([]driver.EnrichmentRecord, error) {
 	if !e.w.parse(ctx, e.sc, rc, 'e') {
-		return nil, errors.New("scripted enrichment parse failure")
+		return nil, ownErr(e.sc, "enrichment parse")
 	}
 	rs := make([]driver.EnrichmentRecord, len(e.sc.vulns))
 	for i, id := range e.sc.vulns {
@@ -375,6 +384,7 @@ func (w *world) ctxFollowsRun(ctx context.Context, wk *worker, what string) {
 
 func (w *world) fetch(ctx context.Context, sc *script, fp driver.Fingerprint, method byte) (io.ReadCloser, driver.Fingerprint, error) {
 	w.pre(sc, true)
+	w.barrierOf(w.fetchBars).wait()
 	w.mu.Lock()
 	defer w.mu.Unlock()
 	wk := w.workerOf(sc.inst, "fetch")
@@ -421,7 +431,7 @@ func (w *world) fetch(ctx context.Context, sc *script, fp driver.Fingerprint, me
 		return rc, fpStr(nfp), driver.Unchanged
 	}
 	wk.failed = true
-	return rc, fpStr(nfp), errors.New("scripted fetch failure")
+	return rc, fpStr(nfp), ownErr(sc, "fetch")
 }
 
 func (w *world) parse(ctx context.Context, sc *script, rc io.ReadCloser, method byte) bool {
@@ -530,7 +540,7 @@ func (s *store) GetUpdateOperations(ctx context.Context, kind driver.UpdateKind,
 	w.emit(wk, "getops", fmt.Sprintf("getops %s %d %s", k, nm, okErr(ok)))
 	w.r.Count(fmt.Sprintf("getops:%c:%s", sc.kind, okErr(ok)))
 	if !ok {
-		return nil, errors.New("scripted GetUpdateOperations failure")
+		return nil, ownErr(sc, "GetUpdateOperations")
 	}
 	out := map[string][]driver.UpdateOperation{}
 	for _, o := range s.ops {
@@ -574,7 +584,7 @@ func (s *store) update(method byte, kind driver.UpdateKind, name string, fp driv
 	w.emit(wk, "store", fmt.Sprintf("store %c %d %d %s %s %s", method, call.name, call.fp, csv(vulns), del, okErr(ok)))
 	w.r.Count(fmt.Sprintf("store:%c:%s", method, okErr(ok)))
 	if !ok {
-		return uuid.Nil, errors.New("scripted store failure")
+		return uuid.Nil, ownErr(sc, "store")
 	}
 	ref := uuid.New()
 	s.ops = append([]storedOp{{kind: kind, name: name, fp: fp, ref: ref}}, s.ops...)
@@ -619,9 +629,66 @@ func (s *store) UpdateEnrichments(ctx context.Context, kind string, fp driver.Fi
 
 func (s *store) RecordUpdaterStatus(ctx context.Context, name string, _ time.Time, fp driver.Fingerprint, uerr error) error {
 	err := s.recordStatus(name, fp, uerr)
-	// the last thing driveUpdater does: let two workers leave it at the same moment
+	// the last thing driveUpdater does: let workers leave it at the same moment
+	// (all of them in a burst scenario, else two)
+	s.w.barrierOf(s.w.statusBars).wait()
 	s.w.rendezvous()
 	return err
+}
+
+// barrierOf picks the barrier of the run the calling worker belongs to.
+func (w *world) barrierOf(bars []*barrier) *barrier {
+	if bars == nil {
+		return nil
+	}
+	w.mu.Lock()
+	defer w.mu.Unlock()
+	if wk := w.worker[hx.GoID()]; wk != nil && wk.run < len(bars) {
+		return bars[wk.run]
+	}
+	return nil
+}
+
+// barrier releases its waiters together once `need` of them have arrived
+// (or lets a waiter go after a while: a worker that never arrives must not
+// hang the others). A nil barrier does nothing.
+type barrier struct {
+	mu       sync.Mutex
+	n        int
+	need     int
+	ch       chan struct{}
+	at       atomic.Int64 // the instant (UnixNano) at which the released waiters go on
+	timeouts atomic.Int64
+}
+
+func newBarrier(need int) *barrier {
+	if need < 2 {
+		return nil
+	}
+	return &barrier{need: need, ch: make(chan struct{})}
+}
+
+func (b *barrier) wait() {
+	if b == nil {
+		return
+	}
+	b.mu.Lock()
+	b.n++
+	if b.n == b.need {
+		b.at.Store(time.Now().UnixNano() + int64(40*time.Microsecond))
+		close(b.ch)
+	}
+	b.mu.Unlock()
+	select {
+	case <-b.ch:
+		// woken goroutines become runnable one after the other: those that are
+		// on a processor spin until the common instant, so that as many as
+		// there are processors go on truly at once
+		for at := b.at.Load(); time.Now().UnixNano() < at; {
+		}
+	case <-time.After(100 * time.Millisecond):
+		b.timeouts.Add(1)
+	}
 }
 
 // rendezvous pairs two goroutines (or gives up after a moment): both go on at
